@@ -22,7 +22,9 @@
 //   end
 // stdout: case <id> / one line per record / end
 //   add <tag> <seq> <t_before> <t_after> <when_lo> <when_hi> <iv> <L|F>     (times relative to t0)
-//   run <tag> <seq|-1> <t_run> <filed_deadline|-1>
+//   run <tag> <seq|-1> <t_run> <filed_deadline|-1> <L|F>    L: the callback ran on the thread that owns the loop
+//                                      (EventLoop::isInLoopThread(), i.e. threadId_ == CurrentThread::tid()); added for
+//                                      REVIEW_B B-10: the clause "runs ... on the loop thread" of C06
 //   cancel <tag> <t_call> <L|F>        the cancel call returned (L: on the loop thread = processed)
 //   processed <tag> <t>                 the marker behind a foreign cancel ran on the loop thread
 //   quit <t> <done|timeout>
@@ -126,7 +128,8 @@ static void onTimer(int tag)
   {
     std::lock_guard<std::mutex> lk(g_mu);
     first = g_runs[tag]++;
-    g_trace.push_back("run " + i64(tag) + " " + i64(known ? id.sequence_ - g_base : -1) + " " + i64(t - g_t0) + " " + i64(dl));
+    g_trace.push_back("run " + i64(tag) + " " + i64(known ? id.sequence_ - g_base : -1) + " " + i64(t - g_t0) + " " + i64(dl)
+                      + (g_loop->isInLoopThread() ? " L" : " F"));
   }
   if (first == 0)
   {
